@@ -165,8 +165,9 @@ func vpdfRandom(rng *rand.Rand, maxRuns int) string {
 	return sb.String()
 }
 
-func TestVerifC04(t *testing.T) {
-	r := hlib.New("C04")
+func vpdfMain(t *testing.T, id string, only ...string) {
+	r := hlib.New(id)
+	r.Only = only
 	defer r.Done(t)
 	rng := rand.New(rand.NewSource(r.Seed))
 	thorough := r.Tier == "thorough"
@@ -386,4 +387,17 @@ func TestVerifC04(t *testing.T) {
 		}
 	}
 	flush()
+}
+
+func TestVerifC04(t *testing.T) { vpdfMain(t, "C04") }
+
+// The same cases reported under the other properties they serve (only the named checks count).
+func TestVerifC10PDF(t *testing.T) {
+	vpdfMain(t, "C10", "panic", "result-shape", "rejects-representable", "accepts-illegal-level")
+}
+func TestVerifC12PDF(t *testing.T) {
+	vpdfMain(t, "C12", "level", "reference-reader", "pattern-table")
+}
+func TestVerifC13PDF(t *testing.T) {
+	vpdfMain(t, "C13", "padding", "dimension-limits")
 }
